@@ -157,3 +157,12 @@ func lemma_precedence_table() (or, and, re, nre, eq, ne, lt, gt, le, ge, plus, s
 // tighter than the context it was called with (so equal precedence groups to the left).
 //@ func (*Parser).ParseExpression [C02]
 //@   callassert? [climbs-only-to-tighter-operators C02] <dynamic>: nonnil(arg0) ==> precedence < p.curPrecedence()
+
+// ---- C09 (duplicate case labels only): comments do not change whether a label is a duplicate -----------
+// A string label is identified by its value; ParseSwitchStatement itself takes no decision from a
+// rendering (String() renders the attached comments). Labels that are not plain strings
+// (concatenations) still go through String() inside caseLabelKey: not covered.
+//@ func caseLabelKey [C09]
+//@   ensures [string-label-key-is-its-value C09] is(e, *ast.String) && e.(*ast.String) != nil ==> result == e.(*ast.String).Value
+//@ func (*Parser).ParseSwitchStatement [C09]
+//@   callassert [labels-are-not-compared-by-their-rendering C09] String: false
